@@ -167,6 +167,36 @@ def classify_stall(text):
     return " <- ".join(names) if names else "?"
 
 
+def is_sleeping_lock_artefact(text):
+    """A stall that is an artefact of testing/synctest, not of the code under
+    test: in the bubble of the run in progress some goroutine of the code under
+    test sleeps (Machine.doDispose sleeps 100 ms while it holds the machine's
+    locks) and another one waits for a sync mutex. A mutex wait is not a durable
+    block for synctest, so fake time cannot pass and the sleeper never wakes; a
+    real process simply waits those 100 ms. The run is abandoned (its worker's
+    remaining budget is lost), nothing is concluded from it."""
+    blocks = [b for b in text.split("\n\n") if b.startswith("goroutine ")]
+    cur = None
+    for b in blocks:
+        head = b.split("\n", 1)[0]
+        if "synctest.Run" in head:
+            m = re.search(r"synctest bubble (\d+)", head)
+            if m:
+                cur = m.group(1)
+    if cur is None:
+        return False
+    sleeper = waiter = False
+    for b in blocks:
+        head = b.split("\n", 1)[0]
+        if not re.search(r"synctest bubble %s[\],]" % cur, head):
+            continue
+        if "[sleep" in head and "machine.(*Machine).doDispose" in b:
+            sleeper = True
+        if re.search(r"\[sync\.(RW)?Mutex\.(R)?Lock", head) and "asyncmachine-go/pkg/" in b:
+            waiter = True
+    return sleeper and waiter
+
+
 def check(args):
     prop = args.id
     meta = META.get(prop)
@@ -212,6 +242,7 @@ def search(prop, family, meta, tier, seed, workers, budget, binary, scratch, t0,
     crashes = []
     salvaged = []
     stalls = []
+    notes = []
     for i, p, env in procs:
         so, se = p.communicate()
         outp = env["VERIF_OUT"]
@@ -246,13 +277,22 @@ def search(prop, family, meta, tier, seed, workers, budget, binary, scratch, t0,
                 desc = classify_stall(open(dst).read())
             except OSError:
                 pass
+            artefact = False
+            try:
+                artefact = is_sleeping_lock_artefact(open(dst).read())
+            except OSError:
+                pass
             if desc and meta.get("deadlock_is_violation"):
                 stalls.append((cur, desc, dst))
+            elif artefact:
+                notes.append("worker %d abandoned the run at seed %s: Machine.doDispose sleeps while holding the machine's locks and another goroutine waits for one of them, which freezes the fake clock (testing/synctest artefact, see DESIGN 11.2); dump %s" % (i, cur, dst))
             else:
                 trouble.append("worker %d stalled at seed %s (stack dump: %s)" % (i, cur, dst))
         else:
             crashes.append((cur, (se or "")[-6000:], p.returncode))
     if not outs and not crashes and not salvaged and not stalls:
+        for t in notes:
+            log("NOTE:", t)
         for t in trouble:
             log("HARNESS:", t)
         return 2
@@ -487,6 +527,7 @@ def search(prop, family, meta, tier, seed, workers, budget, binary, scratch, t0,
         "wall_s": round(wall, 2),
         "violations": len(violations),
         "known_findings_reproduced": sorted(known_hit),
+        "abandoned_runs": notes,
         "repo": repo_describe(),
     }
     os.makedirs(os.path.join(OUT, "evidence"), exist_ok=True)
@@ -499,6 +540,8 @@ def search(prop, family, meta, tier, seed, workers, budget, binary, scratch, t0,
             hit = k["key"] in known_hit
             print("KNOWN-FINDING: property=%s %s [%s]%s" % (
                 prop, k["what"], k["key"], "" if hit else " (not reproduced in this run)"))
+    for t in notes:
+        log("NOTE:", t)
     for h in harness:
         log("HARNESS:", h)
     for cls, path, msg in violations:
